@@ -749,6 +749,13 @@ class Boolean(Base):
                 defaults to KMIP 1.0.
         """
         super(Boolean, self).read(istream, kmip_version=kmip_version)
+        if self.length != self.LENGTH:
+            raise exceptions.ReadValueError(
+                Boolean.__name__,
+                'length',
+                self.LENGTH,
+                self.length
+            )
         self.read_value(istream, kmip_version=kmip_version)
 
     def write_value(self, ostream, kmip_version=enums.KMIPVersion.KMIP_1_0):
